@@ -1,4 +1,5 @@
 import GtirbVerif.Lemmas.IRPurge
+import GtirbVerif.Lemmas.IRSymClosed
 import GtirbVerif.Props.C20
 import GtirbVerif.Spec.WellFormed
 
@@ -17,7 +18,10 @@ import GtirbVerif.Spec.WellFormed
   recorded in known_findings.json); offset-keyed entries of a removed block disappear; a removed
   block is in no function table and no symbol stays on it (C02, C06); on failure the two context
   managers leave `ir.cfg` = the caller's object with the live edges and every symbol with its
-  referent materialised (proved in C20 for every body and every history, restated here).
+  referent materialised (proved in C20 for every body and every history, restated here); over
+  whole rewrites - `apply()`'s loop over all blocks, patches with any number of extra sections -
+  every symbol referent that is a block is a block attached to a byte interval of the module
+  (`symbol_referents_are_part_of_the_module`, from Lemmas/IRSymClosed.lean).
 -/
 namespace GtirbVerif.Props.C05
 open GtirbVerif GtirbVerif.IR GtirbVerif.Adt
@@ -66,5 +70,19 @@ retarget: nothing stays indirect, every symbol carries the referent the history 
 theorem failure_strands_no_symbol {c c' : RC} {sp : RSpec} (hi : Inv c) (ha : Abs c sp) (h : c.apply = some c') :
     (∀ s, c'.referents s = none) ∧ (∀ s, c'.direct s = sp.ref s ∧ c'.atEnd s = sp.atEnd s) :=
   C20.refcache_apply_direct hi ha h
+
+/-- **symbol referents, over a whole `apply()`**: when the loop over all blocks is through, every
+symbol that refers to a block refers to a block that is attached to a byte interval of a section of
+the module (premises: the objects of every patch are new when it is inserted; the invariant holds
+of the input - both are evaluated on the recorded states of every run) -/
+theorem symbol_referents_are_part_of_the_module (rs : List BlockMods) (ir ir' : IR)
+    (h : ir.applyAll rs = .ok ir') (hI : IdsBelow ir) (hok : ∀ r ∈ rs, ReqOk ir r) (hnd : (rs.map (ivOf ir)).Nodup)
+    (hnew : NewPatchesAll ir rs) (hinv : SInv ir) :
+    ∀ y ∈ ir'.syms, ∀ b, y.ref = .block b → ∃ blk s, ir'.block? b = some blk ∧ blk.bi ≠ none ∧ ir'.sectionOf blk = some s := by
+  obtain ⟨s1, _⟩ := applyAll_sinv rs ir ir' h hI hok hnd hnew hinv.1 hinv.2
+  intro y hy b hb
+  rcases s1 y hy b hb with ⟨s, blk, hblk, hs⟩ | hp
+  · exact ⟨blk, s, hblk, sectionOf_some_bi hs, hs⟩
+  · cases hp
 
 end GtirbVerif.Props.C05
